@@ -17,7 +17,7 @@ func init() {
 		Rule: "one case = (codec, garbage prefix of 0-2 strings, frame A shape, loss subset of A's packets, frame B shape); the delivered packets of A then all packets of B go into one depacketizer and B's outputs are compared with a fresh depacketizer that sees B only; non-trivial = at least one packet of A was lost and at least one delivered",
 		Assumptions: []string{
 			"H264 frames A: 12 shapes of up to 10 packets mixing single NAL units, STAP-A and FU-A trains (reference encoder); frames B: the damaged frame A itself sent again byte for byte / single / STAP-A / FU-A train / FU-A train + single / FU-A trains whose start, middle or end fragment carries no payload octets, and a single FU-A packet with both S and E set (also among the A shapes); Annex-B and AVC output",
-			"AV1 frames A: 8 OBU sequences packetized by AV1Payloader at small MTUs into up to 10 packets with Z/Y chains, plus a fragmented tile list and a fragmented temporal delimiter from another packetizer; frames B start with Z=0, with and without N=1, among them the damaged frame sent again and two hand-built frames whose first packet opens with an empty OBU element",
+			"AV1 frames A: 8 OBU sequences packetized by AV1Payloader at small MTUs into up to 10 packets with Z/Y chains, plus a fragmented tile list and a fragmented temporal delimiter from another packetizer; frames B start with Z=0, with and without N=1, among them the damaged frame sent again and hand-built frames whose first packet opens with an empty OBU element or ends in an empty first fragment",
 			"large abandoned fragments: a fragmented unit / OBU of 70 KB, 1 MiB + 1 KB and 3 MB whose end (or start, or one middle fragment) is lost, at MTU 1200, followed by each frame-B shape; for H264 also abandoned units that leave 2^16..2^22 minus {0,1,600,1197,1199} bytes buffered, followed by a frame B with full-size fragments",
 			"ALL loss subsets of A (2^n, n <= 10) delivered in order; thorough: a second damaged frame (H264 shapes 3, s2, E; the first three packets of three AV1 shapes) behind the first, the loss subsets running over both (n <= 13), and garbage prefixes also for frames of up to 8 packets; garbage: every sequence of up to 2 strings before frame A and 0-1 string between the delivered part of A and frame B, from an 8 (H264) / 12 (AV1) string corpus (nil, empty, orphan fragments, truncated aggregation, start of a never-finished fragment)",
 		},
@@ -204,7 +204,7 @@ func c15AV1Shapes() []c15AV1Shape {
 func c15AV1(c *mc.Ctx) {
 	shapes := c15AV1Shapes()
 	ai := c.Pick(len(shapes))
-	bi := c.Pick(7)
+	bi := c.Pick(8)
 	sa := shapes[ai]
 	frameA := cloneAll(sa.raw)
 	if sa.raw == nil {
@@ -229,6 +229,9 @@ func c15AV1(c *mc.Ctx) {
 		frameB = [][][]byte{
 			{{0x60, 0x00, 0x30, 0xB1, 0xB2}, {0x90, 0xB3, 0xB4}},             // W=2 / W=1
 			{{0x40, 0x00, 0x03, 0x30, 0xB1, 0xB2}, {0x80, 0x02, 0xB3, 0xB4}}, // W=0: every element length-prefixed
+			// W=2 whose last element (announced as the start of a fragment, Y=1) has no bytes at
+			// all, then a packet that claims to continue it
+			{{0x60, 0x03, 0x30, 0xA1, 0xA2}, {0x90, 0x30, 0xB1, 0xB2}},
 		}[bi-5]
 		bi = 0
 	}
